@@ -27,6 +27,8 @@ func main() {
 		os.Exit(cmdCheck(os.Args[2:]))
 	case "replay":
 		os.Exit(cmdReplay(os.Args[2:]))
+	case "checkall":
+		os.Exit(cmdCheckAll(os.Args[2:]))
 	case "manifest":
 		os.Exit(cmdManifest())
 	case "list":
@@ -361,4 +363,59 @@ func firstLine(s string) string {
 		return s[:i]
 	}
 	return s
+}
+
+// cmdCheckAll loads the whole repository once and runs every registered check against that
+// one program (developer convenience; the registered commands run one property per process).
+// Evidence is written only with --evidence.
+func cmdCheckAll(args []string) int {
+	fs := flag.NewFlagSet("checkall", flag.ExitOnError)
+	repo := fs.String("repo", "", "repository directory (default /repo)")
+	vdir := fs.String("verif", "", "verif directory")
+	evid := fs.Bool("evidence", false, "write evidence files")
+	only := fs.String("only", "", "comma-separated property ids")
+	fs.Parse(args)
+	if *repo != "" {
+		kit.RepoDir = *repo
+	}
+	vd := verifDir(*vdir)
+	known, err := kit.LoadKnown(filepath.Join(vd, "known_findings.json"))
+	if err != nil {
+		fmt.Println(err)
+		return 2
+	}
+	p, err := kit.Load(kit.LoadConfig{})
+	if err != nil {
+		fmt.Printf("CHECKER-ERROR %v\n", err)
+		return 2
+	}
+	worst := 0
+	for _, id := range rules.IDs() {
+		if *only != "" && !strings.Contains(","+*only+",", ","+id+",") {
+			continue
+		}
+		c := rules.Get(id)
+		r := kit.NewReport(id, "quick")
+		r.Explain = c.Explain
+		func() {
+			defer func() {
+				if e := recover(); e != nil {
+					r.Floor("checker panic: %v", e)
+					fmt.Printf("%s\n", debug.Stack())
+				}
+			}()
+			c.Run(p, r)
+		}()
+		outDir := vd
+		if !*evid {
+			d, _ := os.MkdirTemp("", "mmverify-all")
+			outDir = d
+			defer os.RemoveAll(d)
+		}
+		out := r.Finish(outDir, c.Level, known)
+		if out.ExitCode > worst {
+			worst = out.ExitCode
+		}
+	}
+	return worst
 }
